@@ -35,12 +35,33 @@ def worker():
                 rc["status"] = "does not build on this HEAD"
             else:
                 checks = meta.get("checks_run") or [meta["property"]]
+                # first the harnesses that caught it when it was recorded (fast); the whole check only if they do not
+                earlier = {}
+                for r in (meta.get("check_results") or []) + ((meta.get("recheck") or {}).get("check_results") or []):
+                    for f in r.get("failed", []):
+                        earlier.setdefault(r["check"], [])
+                        h = f.split(" ")[0]
+                        if h not in earlier[r["check"]]:
+                            earlier[r["check"]].append(h)
                 res = []
-                for c in checks:
-                    out = subprocess.run(["/verif/bin/mobverif", "run", "-prop", c, "-tier", "quick"], cwd="/verif", env=dict(env, VERIF_REPO=wt),
-                                         capture_output=True, text=True).stdout
+                def run(c, harness=None):
+                    cmd = ["/verif/bin/mobverif", "run", "-prop", c, "-tier", "quick"] + (["-harness", harness] if harness else [])
+                    out = subprocess.run(cmd, cwd="/verif", env=dict(env, VERIF_REPO=wt), capture_output=True, text=True).stdout
                     v = sorted({re.sub(r".*harness=", "", l)[:110] for l in out.splitlines() if l.startswith("VIOLATION")})
-                    res.append({"check": c, "violations": len(v), "inconclusive": sum(1 for l in out.splitlines() if l.startswith("INCONCLUSIVE")), "failed": v[:6]})
+                    return {"check": c, "only_harness": harness, "violations": len(v), "inconclusive": sum(1 for l in out.splitlines() if l.startswith("INCONCLUSIVE")), "failed": v[:6]}
+                hit = False
+                for c in checks:
+                    for h in earlier.get(c, [])[:2]:
+                        r = run(c, h)
+                        res.append(r)
+                        if r["violations"] > 0:
+                            hit = True
+                            break
+                    if hit:
+                        break
+                if not hit:
+                    for c in checks:
+                        res.append(run(c))
                 rc["check_results"] = res
                 rc["detected"] = any(r["violations"] > 0 for r in res)
             meta["recheck"] = rc
